@@ -189,3 +189,42 @@ def layout_body(ctx, case, table, tol=1e-10):
         ctx.check(err <= tol * scale + 1e-300,
                   "%s output %d depends on the memory layout of the input (%s view vs contiguous copy of the same values): max|d| = %.3g, scale %.3g"
                   % (name, j, case["layout"], err, scale), sig=sig)
+
+
+# ---- single-precision number types ---------------------------------------------------
+@st.composite
+def single_case(draw, names, min_n=24, max_n=64):
+    return {"fn": draw(st.sampled_from(list(names))), "n": draw(st.integers(min_n, max_n)), "seed": draw(st.integers(0, 2 ** 32 - 1)),
+            "complex": draw(st.booleans())}
+
+
+def single_body(ctx, case, table, tol=1e-3):
+    """float32 / complex64 samples vs the same (already rounded) values as float64 / complex128.  The routine may work in
+    single precision, so the comparison is loose (1e-3 of the largest value): it decides whether the samples were taken
+    for what they are (e.g. complex64 data are complex data), not how accurately they were processed."""
+    name = case["fn"]
+    f = table[name]
+    rng = np.random.default_rng(case["seed"])
+    n = case["n"]
+    v = rng.standard_normal(n) + 0.8 * np.cos(0.9 * np.arange(n))
+    if case["complex"]:
+        v = v + 1j * rng.standard_normal(n)
+    lo = v.astype(np.complex64 if case["complex"] else np.float32)
+    hi = lo.astype(complex if case["complex"] else float)
+    sig = {"fn": name, "dtype": str(lo.dtype)}
+    ctx.sig_on_exception = sig
+    ctx.cls(name, str(lo.dtype))
+    ctx.nontrivial(True)
+    want = flat(f(hi))
+    got = flat(f(lo))
+    ctx.check(len(got) == len(want), "%s: number of outputs differs for %s samples" % (name, lo.dtype), sig=sig)
+    for j, (g, w) in enumerate(zip(got, want)):
+        ctx.check(g.shape == w.shape, "%s output %d: shape %s for %s samples, %s for the same values in double precision"
+                  % (name, j, g.shape, lo.dtype, w.shape), sig=sig)
+        if w.size == 0 or not np.all(np.isfinite(w)):
+            continue
+        scale = float(np.max(np.abs(w)))
+        err = float(np.max(np.abs(g - w))) if np.all(np.isfinite(g)) else float("inf")
+        ctx.check(err <= tol * scale + 1e-300,
+                  "%s output %d: %s samples are not treated like the same values in double precision (max|d| = %.3g, scale %.3g)"
+                  % (name, j, lo.dtype, err, scale), sig=sig)
